@@ -214,7 +214,7 @@ def cases(tier, rng, dist, focus=None):
     for _ in range(30 if tier == "quick" else 300):
         n = rng.randint(3, 6)
         data = [rng.randint(-4, 4) for _ in range(2 * n)]
-        steps = [rng.choice(["two_sample", "one_sample", "k_sample", "corr", "permute", "pwg", "s2s", "biv", "rows", "two_sample"]) for _ in range(rng.randint(2, 4))]
+        steps = [rng.choice(["two_sample", "one_sample", "k_sample", "corr", "permute", "pwg", "s2s", "biv", "rows", "two_sample", "shift", "shift"]) for _ in range(rng.randint(2, 4))]
         yield {"f": "seq", "steps": steps, "data": data, "n": n, "reps": rng.randint(1, 3), "gen": rng.choice(["tape", "tape", "sha", "rs"]),
                "seed": rng.randint(0, 10**6), "aseed": rng.randint(0, 10**9), "keep": rng.random() < 0.7}
     # long samples: every unit must be reachable by the randomization ("every sign assignment / every allocation equally
@@ -330,6 +330,11 @@ def seq_call(step, c, gen, x, y, g, m):
         def st(u, v):
             rec.append([[float(z) for z in u], [float(z) for z in v]]); return float(np.sum(u) - np.sum(v))
         r = core.two_sample(x, y, stat=st, keep_dist=c["keep"], **kw)
+        return [float(r[0]), float(r[1])] + ([[float(v) for v in r[2]]] if c["keep"] else []) + [rec]
+    if step == "shift":
+        def st(u, v):
+            rec.append([[float(z) for z in u], [float(z) for z in v]]); return float(np.sum(u) - np.sum(v))
+        r = core.two_sample_shift(x, y, stat=st, keep_dist=c["keep"], shift=1.5, **kw)
         return [float(r[0]), float(r[1])] + ([[float(v) for v in r[2]]] if c["keep"] else []) + [rec]
     if step == "one_sample":
         def st1(u):
@@ -974,6 +979,24 @@ def oracle_two(c, o):
             if not admissible_alloc(u, v, t0, t1):
                 _v = emit({"why": f"{name}: statistic evaluated on {u},{v}, not an allocation of the units {list(zip(t0, t1))}", "cls": f"{name}:inadmissible"})
                 if _v: return _v
+        # the rearrangement of every repetition is the one selected by the draws (random.shuffle of the index list left by
+        # the previous repetition): predicted by the Python mirror of the model from the logged answers
+        ans = [z for (_, z) in o[tag]["log"]]; rr = list(range(len(t0)))
+        try:
+            for k, (u, v) in enumerate(rec[2:][::per]):
+                rr = m_pyshuffle(rr, ans)
+                pu = [t0[i] for i in rr[:nx]]; pv = [t1[i] for i in rr[nx:]]
+                if [fl(z) for z in u] != pu or [fl(z) for z in v] != pv:
+                    _v = emit({"why": f"{name}: repetition {k} evaluated the statistic on {u},{v}; the shuffle selected by the draws {[z for (_, z) in o[tag]['log']]} gives {[float(z) for z in pu]},{[float(z) for z in pv]} (x={c['x']}, y={c['y']})", "cls": f"{name}:wrong-rearrangement"})
+                    if _v: return _v
+                    break
+            else:
+                if ans:
+                    _v = emit({"why": f"{name}: {len(ans)} draws beyond the {c['reps']} shuffles of {len(t0)} units were requested ({o[tag]['log']}): a later call sharing the generator starts from a skipped part of the stream", "cls": f"{name}:draws-depend-on-data"})
+                    if _v: return _v
+        except MirrorMismatch:
+            _v = emit({"why": f"{name}: the draws requested {o[tag]['log']} are not one shuffle of {len(t0)} units per repetition", "cls": f"{name}:draws-depend-on-data"})
+            if _v: return _v
         if per == 2:
             calls = rec[2:]
             if any(calls[2 * i] != calls[2 * i + 1] for i in range(c["reps"])):
